@@ -5,6 +5,7 @@ import (
 	"hash/fnv"
 	"io"
 	"regexp"
+	"sort"
 	"strconv"
 	"strings"
 	"sync"
@@ -45,6 +46,11 @@ type hist struct {
 	FinB   int
 	Events []event
 	Dense  bool // probe every live handle after every transition (else only at the end)
+	// Probes: what is executed on / read from live handles by the oracle (nil: the default of the mode)
+	Probes []int
+	// Writes: the finishers change rows; SQLite tables of the Owner graph are reseeded before the history
+	// and statement logs are compared as multisets (gorm walks the selected relations in map order)
+	Writes bool
 }
 
 // HistoryJSON is the replay format (labels, not indexes, so that it survives
@@ -59,6 +65,8 @@ type HistoryJSON struct {
 	FinB     string   `json:"fork_b_finisher"`
 	Events   []string `json:"schedule"`
 	Dense    bool     `json:"probe_after_every_transition"`
+	Probes   []string `json:"handle_probes,omitempty"`
+	Writes   bool     `json:"writing_finishers,omitempty"`
 	Readable string   `json:"readable,omitempty"`
 }
 
@@ -94,12 +102,23 @@ func (hs *hist) JSON() HistoryJSON {
 	for _, e := range hs.Events {
 		j.Events = append(j.Events, e.String())
 	}
+	for _, p := range hs.Probes {
+		j.Probes = append(j.Probes, finishers[p].Label)
+	}
+	j.Writes = hs.Writes
 	j.Readable = hs.String()
 	return j
 }
 
 func fromJSON(j HistoryJSON) (*hist, error) {
-	hs := &hist{Real: j.Real, Dense: j.Dense}
+	hs := &hist{Real: j.Real, Dense: j.Dense, Writes: j.Writes}
+	for _, l := range j.Probes {
+		f, ok := finByLabel[l]
+		if !ok {
+			return nil, fmt.Errorf("unknown probe %q", l)
+		}
+		hs.Probes = append(hs.Probes, f)
+	}
 	conv := func(ls []string) ([]int, error) {
 		var out []int
 		for _, l := range ls {
@@ -215,18 +234,29 @@ func newDryRoot() *gorm.DB {
 
 func newRealEnv() *h.Env {
 	e := h.Open(&gorm.Config{NowFunc: fixedNow, AllowGlobalUpdate: true})
-	for _, s := range strings.Split(schemaSQL, ";") {
+	for _, s := range strings.Split(schemaSQL+";"+assocSchemaSQL, ";") {
 		if strings.TrimSpace(s) != "" {
 			e.MustExec(s)
 		}
 	}
+	reseedAssoc(e)
 	return e
+}
+
+// reseedAssoc puts the tables of the Owner graph back into their initial state.
+func reseedAssoc(e *h.Env) {
+	for _, s := range strings.Split(assocSeedSQL, ";") {
+		if strings.TrimSpace(s) != "" {
+			e.MustExec(s)
+		}
+	}
 }
 
 // obsCollector turns finisher executions into observation strings.
 type obsCollector struct {
-	env *h.Env // nil in DryRun mode
-	out []string
+	env    *h.Env // nil in DryRun mode
+	out    []string
+	sorted bool // compare the statement log as a multiset
 }
 
 func dryObs(tx *gorm.DB) string {
@@ -260,11 +290,12 @@ func (o *obsCollector) observe(tx *gorm.DB) {
 		o.out = append(o.out, dryObs(tx))
 		return
 	}
-	var sb strings.Builder
+	var lines []string
 	for _, ev := range o.env.Rec.Events() {
 		if !ev.IsStatement() {
 			continue
 		}
+		var sb strings.Builder
 		sb.WriteString(ev.Kind)
 		sb.WriteByte(' ')
 		sb.WriteString(savepointName.ReplaceAllString(ev.SQL, "sp<n>")) // save-point names are random per call
@@ -280,12 +311,21 @@ func (o *obsCollector) observe(tx *gorm.DB) {
 			sb.WriteString(" ERR=" + ev.Err.Error())
 		}
 		sb.WriteString("; ")
+		lines = append(lines, sb.String())
+	}
+	if o.sorted {
+		sort.Strings(lines)
+	}
+	var sb strings.Builder
+	for _, l := range lines {
+		sb.WriteString(l)
 	}
 	sb.WriteString(settingsObs(tx))
 	if tx.Error != nil {
 		// RowsAffected of a failed call is whatever the chain object carried before
 		sb.WriteString(errStr(tx.Error))
-	} else {
+	} else if !o.sorted {
+		// (in a writing history the row counts of later reads legitimately depend on the earlier writes)
 		fmt.Fprintf(&sb, "rows=%d", tx.RowsAffected)
 	}
 	o.env.Rec.Reset()
@@ -301,6 +341,10 @@ func runFin(f int, db *gorm.DB, hm bool, oc *obsCollector) (tx *gorm.DB) {
 			tx = nil
 		}
 	}()
+	if f == fState {
+		oc.out = append(oc.out, stateOf(db))
+		return nil
+	}
 	return finishers[f].Run(db, hm, oc.observe)
 }
 
@@ -318,6 +362,7 @@ type spec struct {
 	Fork       []int
 	ForkHandle bool // the fork is turned into a handle before the finisher
 	Fin        int
+	Writes     bool // statement log compared as a multiset
 }
 
 func (s spec) key() string {
@@ -326,6 +371,9 @@ func (s spec) key() string {
 		sb.WriteByte('R')
 	} else {
 		sb.WriteByte('D')
+	}
+	if s.Writes {
+		sb.WriteByte('w')
 	}
 	for _, x := range s.Base {
 		sb.WriteString(strconv.Itoa(x))
@@ -378,7 +426,7 @@ func replayAlone(s spec) (res string) {
 		}
 	}()
 	var root *gorm.DB
-	oc := &obsCollector{}
+	oc := &obsCollector{sorted: s.Writes}
 	if s.Real {
 		env := newRealEnv()
 		defer env.Close()
@@ -618,6 +666,14 @@ func (w *worker) run(hs *hist, fresh bool, trace io.Writer) (fail *failure) {
 	if hs.Real {
 		probes = realProbes
 	}
+	if hs.Probes != nil {
+		probes = hs.Probes
+	}
+	rootProbes := []int{fState, fFind}
+	oc.sorted = hs.Writes
+	if hs.Writes && hs.Real && !fresh {
+		reseedAssoc(oc.env)
+	}
 	cnt := w.cnt
 	if !fresh {
 		cnt.histories++
@@ -646,7 +702,7 @@ func (w *worker) run(hs *hist, fresh bool, trace io.Writer) (fail *failure) {
 	fa := &forkState{ops: hs.A, fin: hs.FinA, name: "A"}
 	fb := &forkState{ops: hs.B, fin: hs.FinB, name: "B"}
 	forks := []*forkState{fa, fb}
-	baseKey := spec{Real: hs.Real, Base: hs.Base, Maker: hs.Maker}.key()
+	baseKey := spec{Real: hs.Real, Writes: hs.Writes, Base: hs.Base, Maker: hs.Maker}.key()
 
 	noteState := func() {
 		if fresh {
@@ -710,21 +766,21 @@ func (w *worker) run(hs *hist, fresh bool, trace io.Writer) (fail *failure) {
 
 	checkAll := func() *failure {
 		// the Open handle itself
-		if f := probeHandle("the gorm.Open handle changed", "Open handle", root, spec{Real: hs.Real, Maker: -1}, probes[:1]); f != nil {
+		if f := probeHandle("the gorm.Open handle changed", "Open handle", root, spec{Real: hs.Real, Writes: hs.Writes, Maker: -1}, rootProbes); f != nil {
 			return f
 		}
-		if f := probeHandle("reusable handle changed", "handle H", H, spec{Real: hs.Real, Base: hs.Base, Maker: hs.Maker}, probes); f != nil {
+		if f := probeHandle("reusable handle changed", "handle H", H, spec{Real: hs.Real, Writes: hs.Writes, Base: hs.Base, Maker: hs.Maker}, probes); f != nil {
 			return f
 		}
 		for _, fk := range forks {
 			switch fk.status {
 			case 3:
-				if f := probeHandle("reusable handle changed", "handle made from fork "+fk.name, fk.db, spec{Real: hs.Real, Base: hs.Base, Maker: hs.Maker, Fork: fk.ops, ForkHandle: true}, probes); f != nil {
+				if f := probeHandle("reusable handle changed", "handle made from fork "+fk.name, fk.db, spec{Real: hs.Real, Writes: hs.Writes, Base: hs.Base, Maker: hs.Maker, Fork: fk.ops, ForkHandle: true}, probes); f != nil {
 					return f
 				}
 			case 2:
 				if !hs.Real && fk.tx != nil {
-					s := spec{Real: hs.Real, Base: hs.Base, Maker: hs.Maker, Fork: fk.ops, Fin: fk.fin}
+					s := spec{Real: hs.Real, Writes: hs.Writes, Base: hs.Base, Maker: hs.Maker, Fork: fk.ops, Fin: fk.fin}
 					if f := compare("finished chain's statement changed afterwards", "finished fork "+fk.name+" re-read", s, dryObs(fk.tx)); f != nil {
 						return f
 					}
@@ -776,7 +832,7 @@ func (w *worker) run(hs *hist, fresh bool, trace io.Writer) (fail *failure) {
 			oc.begin()
 			fk.tx = runFin(fk.fin, fk.db, hasModel(hs.Base, fk.ops), oc)
 			fk.status = 2
-			s := spec{Real: hs.Real, Base: hs.Base, Maker: hs.Maker, Fork: fk.ops, Fin: fk.fin}
+			s := spec{Real: hs.Real, Writes: hs.Writes, Base: hs.Base, Maker: hs.Maker, Fork: fk.ops, Fin: fk.fin}
 			if !fresh {
 				if len(fk.ops) > 0 {
 					setNontrivial.add(hash64(s.key()))
@@ -793,14 +849,14 @@ func (w *worker) run(hs *hist, fresh bool, trace io.Writer) (fail *failure) {
 			if fk.status != 3 {
 				return &failure{Kind: "harness: bad schedule", Step: i, What: "exec on a fork that is not a handle"}
 			}
-			s := spec{Real: hs.Real, Base: hs.Base, Maker: hs.Maker, Fork: fk.ops, ForkHandle: true, Fin: e.Fin}
+			s := spec{Real: hs.Real, Writes: hs.Writes, Base: hs.Base, Maker: hs.Maker, Fork: fk.ops, ForkHandle: true, Fin: e.Fin}
 			oc.begin()
 			runFin(e.Fin, fk.db, hasModel(hs.Base, fk.ops), oc)
 			if f := compare("reusable handle changed", "handle made from fork "+fk.name+" executed", s, oc.result()); f != nil {
 				return f
 			}
 		case evExecH:
-			s := spec{Real: hs.Real, Base: hs.Base, Maker: hs.Maker, Fin: e.Fin}
+			s := spec{Real: hs.Real, Writes: hs.Writes, Base: hs.Base, Maker: hs.Maker, Fin: e.Fin}
 			oc.begin()
 			runFin(e.Fin, H, hasModel(hs.Base), oc)
 			if f := compare("reusable handle changed", "handle H executed", s, oc.result()); f != nil {
